@@ -65,6 +65,10 @@ _CURRENT = None      # the World receiving recorded __finalize__ calls
 # operation -> method names pandas 3.0.6 passes to TableDataFrame.__finalize__ (union over the data paths seen in
 # thorough runs of seeds 0-3); a difference is reported in the evidence notes, it is not an alarm
 FINALIZE_TABLE = {
+    "astype_object": ["astype"],
+    "astype_bool": ["astype"],
+    "replace_label": ["None", "copy", "replace"],
+    "fillna_label": ["astype", "copy", "fillna"],
     "astype_nullable": ["astype"],
     "assign_ext": ["copy"],
     "tz_localize": ["copy"],
@@ -381,6 +385,13 @@ def install():
 
 # --------------------------------------------------------------------------- generators
 
+def _substrings(w):
+    return sorted({w[i:j] for i in range(len(w)) for j in range(i + 1, len(w) + 1)} - {w})
+
+
+# units that are pieces of the special units' names ("t" for tonnes, "te", "on", "off", "n", "f", …) and the empty
+# unit are ordinary units of numeric columns: they must be treated like "m" or "kg", never like text / onoff
+ODD_UNITS = _substrings("text") + _substrings("onoff") + [""]
 UNITS = {"f": ["m", "kg", "-", "s"], "i": ["-", "mm", "N"], "O": ["text"], "b": ["onoff"], "M": ["datetime", "-"],
          # pandas extension dtypes: nullable Int64 / Float64 / boolean, tz-aware datetime, category, string
          "I": ["-", "mm", "pcs"], "F": ["kg", "mm", "-"], "B": ["onoff"], "Z": ["datetime", "-"], "C": ["text"],
@@ -449,7 +460,12 @@ def gen_table(rng, loc_counter, name=None, cols=None, nrows=None, force=None):
             kind = rng.choice(["f", "f", "i", "O", "b", "M"])
             if rng.random() < 0.2:
                 kind = rng.choice(["I", "F", "B", "Z", "C", "S"])
-            cols.append((l, kind, rng.choice(UNITS[kind])))
+            if force.get("odd") and not cols:
+                kind = rng.choice(["f", "i"])           # at least one numeric column to degrade
+            unit = rng.choice(UNITS[kind])
+            if kind in "fiIF" and (rng.random() < 0.3 or force.get("odd")):
+                unit = rng.choice(ODD_UNITS)
+            cols.append((l, kind, unit))
     data = {l: gen_column(rng, kind, n) for l, kind, _ in cols}
     df = pd.DataFrame(data)
     if n == 0:
@@ -622,6 +638,36 @@ def _ops():
 
     @op("replace", True)
     def _(rng, d, mk): return [d], lambda: d.replace({1.0: 5.0, "x": "q"})
+
+    @op("astype_object", True)
+    def _(rng, d, mk):
+        cs = _numeric(d) or list(d.columns)
+        c = rng.choice(cs)
+        return [d], lambda: d.astype({c: rng.choice([object, str])})
+
+    @op("astype_bool", True)
+    def _(rng, d, mk):
+        cs = _numeric(d) or list(d.columns)
+        c = rng.choice(cs)
+        return [d], lambda: d.astype({c: bool})
+
+    @op("replace_label", True)
+    def _(rng, d, mk):
+        cs = _numeric(d)
+        if not cs or not len(d):
+            return [d], None
+        c = rng.choice(cs)
+        v = d[c].iloc[0]
+        return [d], lambda: d.replace({c: {v: "n/a"}})
+
+    @op("fillna_label", True)
+    def _(rng, d, mk):
+        cs = [c for c in d.columns if d[c].dtype.kind == "f" and isinstance(d[c].dtype, np.dtype)]
+        if not cs or len(d) < 2:
+            return [d], None
+        c = rng.choice(cs)
+        hole = d.assign(**{c: [np.nan] + list(d[c])[1:]})      # a numeric column with a missing value
+        return [d], lambda: hole.astype({c: object}).fillna({c: "missing"})
 
     @op("assign_new", True)
     def _(rng, d, mk):
@@ -857,6 +903,8 @@ def _ops():
     return ops
 
 
+# safe-list operations that turn numeric data into text / booleans: the kept unit cannot stay
+DEGRADING = {"astype_str", "astype_object", "astype_bool", "replace_label", "fillna_label", "assign_retype", "replace"}
 MUTS = ["set_unit", "set_name", "add_dest", "add_column_new", "add_column_existing", "set_disp_unit", "set_fmt",
         "rewrap_name", "rewrap_units", "rewrap_dests", "rewrap_none", "del_column", "reorder"]
 SIDES = ["source", "result"]
@@ -1222,6 +1270,11 @@ def check_result(res, world, name, safe, sources, pre, R, exc, ws_outer, calls):
             units.setdefault(l, u)
     got = {c[0]: c[1] for c in p["cols"]}
     kinds = {tok(l): R[l].dtype.kind for l in R.columns} if len(set(R.columns)) == len(R.columns) else {}
+    if p["strict"] and not R.empty and dtype_conflict(p["column_names"], kinds, got):
+        bad = {l: [kinds.get(l), got.get(l)] for l in p["column_names"]
+               if dtype_conflict([l], kinds, got)}
+        res.fail("a table frame labels a column with a unit its data type cannot have (mislabelled table)",
+                 bad, "refused with an error", key="mislabelled_table")
     for l in p["column_names"]:
         if l in units:
             if got.get(l) != units[l]:
@@ -1288,7 +1341,10 @@ def run_case(seed, stream, index, ops):
     res.world = world
     try:
         # all tables of the case are made up front (the model allocates the initial infos first)
-        t0 = gen_table(rng, loc_counter, nrows=rng.choice([2, 3, 3, 4, 0]) if rng.random() < 0.25 else rng.choice([2, 3, 4]))
+        degrading = ops[plan[0][0]][0] in DEGRADING and rng.random() < 0.6
+        t0 = gen_table(rng, loc_counter,
+                       nrows=rng.choice([2, 3, 3, 4, 0]) if rng.random() < 0.25 else rng.choice([2, 3, 4]),
+                       force={"odd": True} if degrading else None)
         world.add_table(t0)
         extra = []
         hdr = header_of(t0)
